@@ -238,7 +238,7 @@ fn alphabet(ext: bool) -> TreeAlphabet {
 
 pub fn run(tier: &str) -> Result<Report, String> {
     let mut rep = Report::new("C09", tier, "exploration");
-    let s_max = if tier == "quick" { 4 } else { 5 };
+    let s_max = 6; // 7 needs more than 40 GB for the set of distinct sub-trees
     // 1. sub-trees of all preprocessed formulae up to s_max nodes
     let props = vec!["a".to_string()];
     let mut subs: BTreeSet<T> = BTreeSet::new();
